@@ -922,8 +922,15 @@ func evalFunctionApplication(node *jparse.FunctionApplicationNode, data reflect.
 	// evaluate it.
 	if f, ok := node.RHS.(*jparse.FunctionCallNode); ok {
 
-		f.Args = append([]jparse.Node{node.LHS}, f.Args...)
-		return evalFunctionCall(f, data, env)
+		// Evaluate a copy of the call with the left hand side as
+		// its first argument. Don't modify the node itself: the
+		// syntax tree is shared by every evaluation of the
+		// expression.
+		call := &jparse.FunctionCallNode{
+			Func: f.Func,
+			Args: append([]jparse.Node{node.LHS}, f.Args...),
+		}
+		return evalFunctionCall(call, data, env)
 	}
 
 	// Evaluate both sides and return any errors.
